@@ -182,10 +182,22 @@ def r3_position_nodes(ctx: Ctx) -> None:
 
 
 
+def r4_writers_place_blocks(ctx: Ctx) -> None:
+    """each block handed to a writer lands at its address: IPS record tiling and header packing, SFC seek-then-write"""
+    from .c11 import r1_framing, r2_tiling_loop
+    from .c12 import r4_one_pipeline
+
+    r1_framing(ctx)
+    r2_tiling_loop(ctx)
+    sw = ctx.repo.func("a816.writers", "SFCWriter.write_block")
+    body = [unparse(s) for s in sw.node.body]
+    ctx.check(body == [f"self.file.seek({sw.params()[2]})", f"self.file.write({sw.params()[1]})"], "SFCWriter.write_block", f"seek to the block's offset, then write the block; found {body}")
+
+
 def rb_binding_agreement(ctx: Ctx) -> None:
     from ..ownership import binding_agreement
 
     binding_agreement(ctx)
 
 
-RULES = [r1_who_may_call, r2_accumulate_then_flush, r3_position_nodes, rb_binding_agreement]
+RULES = [r1_who_may_call, r2_accumulate_then_flush, r3_position_nodes, r4_writers_place_blocks, rb_binding_agreement]
